@@ -215,7 +215,7 @@ def run_case(prog, cfg=None, faults=None, cleanups=None, hooks=False, record_eve
              formatters=None, keep_model=False, reporters=None, async_steps=False, texts=None,
              step_extra=None, probe_status=False, second_run=False, second_cfg=None, reset_between=True,
              after_run=None):
-    """faults: {k: "exc"|"assert"} k-th hook invocation raises.
+    """faults: {k: "exc"|"assert"|"kbi"|"skip"|"skipf"} k-th hook invocation raises / interrupts / excludes.
     cleanups: {trigger: [(cid, raising, layer)]}, trigger = ("hook", name, path|None) | ("step", path, idx)
     formatters: callable(config, o2p) -> list of formatter objects (in addition to the recorder)
     """
@@ -385,6 +385,9 @@ def run_case(prog, cfg=None, faults=None, cleanups=None, hooks=False, record_eve
                         raise HookFault("fault in %s #%d" % (name, k))
                     if f == "assert":
                         raise AssertionError("fault in %s #%d" % (name, k))
+                    if f == "kbi":
+                        # the user interrupts the run while a hook is executing (run_hook does not catch it)
+                        raise KeyboardInterrupt()
                 hook.__name__ = name
                 return hook
             runner.hooks = {n: make_hook(n) for n in
